@@ -33,6 +33,7 @@ def obligations(tier):
     return [
         k("c07__mem_limit__alloc_owned_u8", ml + " [payload u8]", [GC + "::Gc::alloc_owned", GC + "::Gc::alloc_ignore_limit_", GC + "::AllocPtr::new"]),
         k("c07__mem_limit__alloc_owned_u64", ml + " [payload u64]", [GC + "::Gc::alloc_owned", GC + "::Gc::alloc_ignore_limit_", GC + "::AllocPtr::new"]),
+        k("c07__mem_limit__limit_stored_as_given", "Gc::new and Gc::set_memory_limit store the limit they are given; setting it leaves the accounting untouched", [GC + "::Gc::new", GC + "::Gc::set_memory_limit"]),
         k("c07__check_collect__trigger_iff_limit_reached", "collect runs iff allocated >= collect_limit; afterwards collect_limit == 2*allocated; memory_limit untouched", [GC + "::Gc::check_collect", GC + "::Gc::collect", GC + "::Gc::sweep"]),
         v("stack", "StackFrame::add_new_frame", "Ok <=> len + max_stack_size(state) <= stack.max_stack_size; Err(StackOverflow(limit)) leaves the stack unchanged; Ok pushes exactly the frame {offset: len-args, state, excess}", "vm/src/stack.rs::StackFrame::add_new_frame"),
         v("stack", "StackFrame::enter_scope_excess", "the entry point of every call: Ok <=> len + max_stack_size(state) <= limit, Err(StackOverflow(limit)) otherwise; Ok pushes exactly one frame and leaves the values alone", "vm/src/stack.rs::StackFrame::enter_scope_excess"),
